@@ -128,9 +128,50 @@ Forms == <<
   [id |-> "fstr", cls |-> "JoinedStr", pos |-> "value", pre |-> "f\"{", suf |-> "}\"", prec |-> 15, need |-> 16],
   [id |-> "fstr_conv", cls |-> "JoinedStr", pos |-> "value-conv", pre |-> "f\"{", suf |-> "!r}\"", prec |-> 15, need |-> 16],
   [id |-> "fstr_text", cls |-> "JoinedStr", pos |-> "value-text", pre |-> "f\"p{", suf |-> "}q\"", prec |-> 15, need |-> 16],
-  [id |-> "fstr_spec", cls |-> "JoinedStr", pos |-> "value-spec", pre |-> "f\"{", suf |-> ":>4}\"", prec |-> 15, need |-> 16]
+  [id |-> "fstr_spec", cls |-> "JoinedStr", pos |-> "value-spec", pre |-> "f\"{", suf |-> ":>4}\"", prec |-> 15, need |-> 16],
+  [id |-> "list1", cls |-> "List", pos |-> "single", pre |-> "[", suf |-> "]", prec |-> 15, need |-> 1],
+  [id |-> "set1", cls |-> "Set", pos |-> "single", pre |-> "{", suf |-> "}", prec |-> 15, need |-> 1],
+  [id |-> "sub_tuple1", cls |-> "Subscript(Tuple)", pos |-> "single", pre |-> "s[", suf |-> ",]", prec |-> 15, need |-> 1],
+  [id |-> "tuple_star1", cls |-> "Tuple", pos |-> "starred-single", pre |-> "(*", suf |-> ",)", prec |-> 15, need |-> 6],
+  [id |-> "lambda0_body", cls |-> "Lambda", pos |-> "body-noparams", pre |-> "lambda: ", suf |-> "", prec |-> 0, need |-> 0],
+  [id |-> "listcomp_if2a", cls |-> "ListComp", pos |-> "if-first-of-2", pre |-> "[x for x in s if ", suf |-> " if b]", prec |-> 15, need |-> 2],
+  [id |-> "listcomp_if2b", cls |-> "ListComp", pos |-> "if-second-of-2", pre |-> "[x for x in s if b if ", suf |-> "]", prec |-> 15, need |-> 2],
+  [id |-> "chain3_m", cls |-> "Compare(chain3)", pos |-> "middle", pre |-> "a < ", suf |-> " < b < 1", prec |-> 5, need |-> 6],
+  [id |-> "ifexp_both_body", cls |-> "IfExp", pos |-> "body+nested-orelse", pre |-> "", suf |-> " if b else a if 1 else 2", prec |-> 1, need |-> 2],
+  [id |-> "ifexp_both_else", cls |-> "IfExp", pos |-> "body>IfExp", pre |-> "(a if 1 else 2) if b else ", suf |-> "", prec |-> 1, need |-> 0],
+  [id |-> "dict_unpack2", cls |-> "Dict", pos |-> "unpack", pre |-> "{**", suf |-> ", b: 1}", prec |-> 15, need |-> 6]
 >>
-Leaves == << [text |-> "a", prec |-> 16], [text |-> "1", prec |-> 15], [text |-> "'s'", prec |-> 15] >>
+Leaves == <<
+  [text |-> "a", prec |-> 16, deep |-> TRUE, cls |-> "Name"],
+  [text |-> "1", prec |-> 15, deep |-> TRUE, cls |-> "Constant(int)"],
+  [text |-> "'s'", prec |-> 15, deep |-> TRUE, cls |-> "Constant(str)"],
+  [text |-> "()", prec |-> 15, deep |-> FALSE, cls |-> "Tuple.empty"],
+  [text |-> "(1,)", prec |-> 15, deep |-> FALSE, cls |-> "Tuple.one"],
+  [text |-> "(1, 2)", prec |-> 15, deep |-> FALSE, cls |-> "Tuple.two"],
+  [text |-> "[]", prec |-> 15, deep |-> FALSE, cls |-> "List.empty"],
+  [text |-> "[1]", prec |-> 15, deep |-> FALSE, cls |-> "List.one"],
+  [text |-> "{}", prec |-> 15, deep |-> FALSE, cls |-> "Dict.empty"],
+  [text |-> "{1}", prec |-> 15, deep |-> FALSE, cls |-> "Set.one"],
+  [text |-> "{1: 2}", prec |-> 15, deep |-> FALSE, cls |-> "Dict.one"],
+  [text |-> "{**k}", prec |-> 15, deep |-> FALSE, cls |-> "Dict.unpack"],
+  [text |-> "f()", prec |-> 15, deep |-> FALSE, cls |-> "Call.noargs"],
+  [text |-> "f(*s)", prec |-> 15, deep |-> FALSE, cls |-> "Call.star-only"],
+  [text |-> "f(**k)", prec |-> 15, deep |-> FALSE, cls |-> "Call.dstar"],
+  [text |-> "s[:]", prec |-> 15, deep |-> FALSE, cls |-> "Subscript(Slice).all-omitted"],
+  [text |-> "s[::]", prec |-> 15, deep |-> FALSE, cls |-> "Subscript(Slice).all-omitted2"],
+  [text |-> "s[()]", prec |-> 15, deep |-> FALSE, cls |-> "Subscript(Tuple).empty"],
+  [text |-> "lambda: 1", prec |-> 0, deep |-> FALSE, cls |-> "Lambda"],
+  [text |-> "''", prec |-> 15, deep |-> FALSE, cls |-> "Constant(str).empty"],
+  [text |-> "b''", prec |-> 15, deep |-> FALSE, cls |-> "Constant(bytes).empty"],
+  [text |-> "f\"\"", prec |-> 15, deep |-> FALSE, cls |-> "JoinedStr.empty"],
+  [text |-> "[x for x in s]", prec |-> 15, deep |-> FALSE, cls |-> "ListComp.noif"],
+  [text |-> "[x for x in s if a if b]", prec |-> 15, deep |-> FALSE, cls |-> "ListComp.two-ifs"],
+  [text |-> "a < b < 1", prec |-> 5, deep |-> FALSE, cls |-> "Compare(chain)"]
+>>
+\* the plain leaves are wrapped up to MaxWraps times; the degenerate atoms (empty / one-element containers, calls
+\* without arguments, slices with every part omitted, lambda without parameters, empty literals ...) once: each
+\* stands in every position of every form
+DeepLeaves == {Leaves[i].text : i \in {j \in 1..Len(Leaves) : Leaves[j].deep}}
 VARIABLES spine, leaf, ref, min, prec, pc
 vars == <<spine, leaf, ref, min, prec, pc>>
 Init == /\ \E i \in 1..Len(Leaves) : /\ leaf = Leaves[i].text /\ min = Leaves[i].text
@@ -138,7 +179,7 @@ Init == /\ \E i \in 1..Len(Leaves) : /\ leaf = Leaves[i].text /\ min = Leaves[i]
         /\ spine = <<>> /\ pc = "build"
 \* the current expression becomes the child of form i
 Wrap(i) == LET f == Forms[i] IN
-  /\ pc = "build" /\ Len(spine) < MaxWraps
+  /\ pc = "build" /\ Len(spine) < (IF leaf \in DeepLeaves THEN MaxWraps ELSE 1)
   /\ spine' = <<f.id>> \o spine
   /\ ref' = "(" \o f.pre \o ref \o f.suf \o ")"
   /\ min' = f.pre \o (IF prec < f.need THEN "(" \o min \o ")" ELSE min) \o f.suf
